@@ -460,9 +460,11 @@ Inductive c01_case :=
 | CSeq (st0 : estate) (steps : list (req * oracle * robs * list oev))
 (* one TryTransition with an injected body on a real Environment in state st0 *)
 | CFsm (st0 : estate) (ev : eevent) (o : oracle) (err : bool) (final : estate) (trace : list titem)
-(* concurrent episode: threads (request, observed result code and reply state), one oracle,
-   observed log, final state, listed; hint = a schedule proposed by the harness *)
-| CConc (st0 : estate) (o : oracle) (ths : list (req * N * option estate)) (hint : list N)
+(* concurrent episode: threads (request, observed result code and reply state), one oracle;
+   macro = the thread index of every locked section in the observed order (each thread's
+   unlocked actions are run eagerly), micro = an explicit step schedule (used when not empty:
+   forced schedules); observed log, final state, listed *)
+| CConc (st0 : estate) (o : oracle) (ths : list (req * N * option estate)) (macro micro : list N)
         (log : list litem) (final : estate) (listed : bool).
 
 (* ---------- correspondence ---------- *)
@@ -491,18 +493,57 @@ Fixpoint all2 {A B} (f : A -> B -> bool) (a : list A) (b : list B) : bool :=
   | _, _ => false
   end.
 
-(* does the schedule explain the observation *)
-Definition explains (st0 : estate) (o : oracle) (ths : list (req * N * option estate))
-           (sched : list nat) (items : list titem) (final : estate) (listed : bool) : bool :=
-  let c0 := init_c (mkWorld st0 true) (map (fun t => (prog_of (fst (fst t)), o)) ths) in
-  let c := run_sched env_events api_bodyful sched c0 in
+Definition enabled (c : cstate) (i : nat) : bool :=
+  match nth_error (c_threads c) i with
+  | None => false
+  | Some th =>
+    match th_phase th with
+    | TIdle =>
+      match th_prog th with
+      | Ret _ _ => false
+      | Do (ATry _) _ | Do (ATeardown _) _ => negb (c_lock c)
+      | Do _ _ => true
+      end
+    | _ => true
+    end
+  end.
+
+Definition next_silent (c : cstate) (i : nat) : bool :=
+  match nth_error (c_threads c) i with
+  | Some th =>
+    match th_phase th, th_prog th with
+    | TIdle, Do ALookup _ | TIdle, Do ARead _ | TIdle, Do (AForce _) _ => true
+    | _, _ => false
+    end
+  | None => false
+  end.
+
+(* run the unlocked actions of thread i until it wants the mutex or is finished *)
+Fixpoint run_silent (fuel : nat) (c : cstate) (i : nat) : cstate :=
+  match fuel with
+  | O => c
+  | S f => if next_silent c i then run_silent f (cstep env_events api_bodyful c i) i else c
+  end.
+
+(* one locked section of thread i (begin, commit, end), then its unlocked actions *)
+Definition macro_step (c : cstate) (i : nat) : cstate :=
+  if enabled c i && negb (next_silent c i) then
+    let c1 := cstep env_events api_bodyful c i in
+    let c2 := cstep env_events api_bodyful c1 i in
+    let c3 := cstep env_events api_bodyful c2 i in
+    run_silent 16 c3 i
+  else c.
+
+Definition run_macro (hint : list nat) (c : cstate) : cstate :=
+  let c1 := fold_left (fun c i => run_silent 16 c i) (seq 0 (length (c_threads c))) c in
+  fold_left macro_step hint c1.
+
+Definition accepts (ths : list (req * N * option estate)) (items : list titem) (final : estate)
+           (listed : bool) (c : cstate) : bool :=
   trace_eqb (rev (c_trace c)) items && estate_eqb (w_st (c_w c)) final &&
   Bool.eqb (w_listed (c_w c)) listed && negb (c_lock c) &&
   all2 (fun th t => thread_result_ok th (snd (fst t)) (snd t)) (c_threads c) ths.
 
-(* Search for an explaining schedule when the hint does not work: depth-first over thread
-   choices, pruned as soon as the emitted trace is not a prefix of the observed one.  [budget]
-   bounds the number of visited nodes (returned with the verdict). *)
 Fixpoint is_prefix (a b : list titem) : bool :=
   match a, b with
   | [], _ => true
@@ -510,44 +551,39 @@ Fixpoint is_prefix (a b : list titem) : bool :=
   | _, _ => false
   end.
 
-Definition c_progress (c c' : cstate) (i : nat) : bool :=
-  (* did thread i move: its program or phase changed (cheap test: lock / trace / phase) *)
-  match nth_error (c_threads c) i, nth_error (c_threads c') i with
-  | Some a, Some b =>
-    negb (match th_phase a, th_phase b with
-          | TIdle, TIdle =>
-            match th_prog a, th_prog b with
-            | Ret _ _, _ => true                       (* finished: no move *)
-            | Do (ATry _) _, Do (ATry _) _ => c_lock c  (* blocked *)
-            | Do (ATeardown _) _, Do (ATeardown _) _ => c_lock c
-            | _, _ => false
-            end
-          | _, _ => false
-          end)
-  | _, _ => false
-  end.
-
-Fixpoint seq_nat (n : nat) : list nat := match n with O => [] | S m => seq_nat m ++ [m] end.
-
-Fixpoint search (fuel : nat) (items : list titem) (accept : cstate -> bool) (c : cstate) : bool :=
+(* Fallback when the eager schedule does not explain the observation (e.g. the reply state was
+   read after somebody else's commit): depth-first search over step schedules, pruned as soon as
+   the emitted trace is not a prefix of the observed one; [budget] bounds the visited nodes. *)
+Fixpoint search (fuel : nat) (items : list titem) (accept : cstate -> bool) (c : cstate)
+         (budget : N) {struct fuel} : bool * N :=
   match fuel with
-  | O => false
+  | O => (false, budget)
   | S f =>
-    if accept c then true else
-    existsb (fun i =>
-      let c' := cstep env_events api_bodyful c i in
-      c_progress c c' i && is_prefix (rev (c_trace c')) items && search f items accept c')
-      (seq_nat (length (c_threads c)))
+    if accept c then (true, budget) else
+    (fix try (is : list nat) (b : N) {struct is} : bool * N :=
+       match is with
+       | [] => (false, b)
+       | i :: r =>
+         if b =? 0 then (false, 0) else
+         if enabled c i then
+           let c' := cstep env_events api_bodyful c i in
+           if is_prefix (rev (c_trace c')) items then
+             let '(ok, b') := search f items accept c' (b - 1) in
+             if ok then (true, b') else try r b'
+           else try r b
+         else try r b
+       end) (seq 0 (length (c_threads c))) budget
   end.
 
-Definition corr_conc st0 o ths (hint : list N) (log : list litem) final listed : bool :=
+Definition corr_conc st0 o ths (macro micro : list N) (log : list litem) final listed : bool :=
   let items := log_items log in
-  explains st0 o ths (map N.to_nat hint) items final listed ||
-  (let c0 := init_c (mkWorld st0 true) (map (fun t => (prog_of (fst (fst t)), o)) ths) in
-   search 40 items
-     (fun c => trace_eqb (rev (c_trace c)) items && estate_eqb (w_st (c_w c)) final &&
-               Bool.eqb (w_listed (c_w c)) listed && negb (c_lock c) &&
-               all2 (fun th t => thread_result_ok th (snd (fst t)) (snd t)) (c_threads c) ths) c0).
+  let c0 := init_c (mkWorld st0 true) (map (fun t => (prog_of (fst (fst t)), o)) ths) in
+  match micro with
+  | _ :: _ => accepts ths items final listed (run_sched env_events api_bodyful (map N.to_nat micro) c0)
+  | [] =>
+    accepts ths items final listed (run_macro (map N.to_nat macro) c0) ||
+    fst (search 120 items (accepts ths items final listed) c0 30000)
+  end.
 
 Definition corr01 (c : c01_case) : bool :=
   match c with
@@ -555,7 +591,7 @@ Definition corr01 (c : c01_case) : bool :=
   | CFsm st0 ev o err final trace =>
     let sec := fsm_section env_events all_bodyful o st0 ev in
     Bool.eqb (sec_err sec) err && estate_eqb (sec_final st0 sec) final && trace_eqb (sec_trace sec) trace
-  | CConc st0 o ths hint log final listed => corr_conc st0 o ths hint log final listed
+  | CConc st0 o ths macro micro log final listed => corr_conc st0 o ths macro micro log final listed
   end.
 
 (* ---------- the property evaluated on what the implementation did ---------- *)
@@ -681,12 +717,12 @@ Definition mon01 (c : c01_case) : N :=
     | [(a, b)] => if estate_eqb final b then 0 else 5
     | _ => 5
     end
-  | CConc st0 o ths hint log final listed => mon_conc st0 log final listed
+  | CConc st0 o ths macro micro log final listed => mon_conc st0 log final listed
   end.
 
 (* ---------- branch tags (measured input distribution) ---------- *)
 (* CSeq: 100 + number of requests that were illegal or failed (capped at 9) + 10 * teardown seen;
-   CFsm: 200 + 10 * enabled + failing point (0 none,1 before,2 leave,3 body,4 enter/after);
+   CFsm: 200 + 10 * enabled + 1 * error + 2 * state moved;
    CConc: 300 + number of threads *)
 Definition step_tag (s : estate) (q : req) (ob : robs) : N :=
   match q with
@@ -708,12 +744,9 @@ Definition tag01 (c : c01_case) : N :=
     (if existsb (fun x => match fst (fst (fst x)) with QTeardown _ | QDestroy _ _ _ => true | _ => false end) steps
      then 10 else 0)
   | CFsm st0 ev o err final trace =>
-    200 + (if can env_events st0 ev then 10 else 0) +
-    (match trace with
-     | [] => 0
-     | _ => if err then (if estate_eqb final st0 then N.of_nat (length trace) else 4) else 0
-     end)
-  | CConc _ _ ths _ _ _ _ => 300 + Nlen ths
+    200 + (if can env_events st0 ev then 10 else 0) + (if err then 1 else 0) +
+    (if estate_eqb final st0 then 0 else 2)
+  | CConc _ _ ths _ _ _ _ _ => 300 + Nlen ths
   end.
 
 Definition report01 := report corr01 mon01 tag01.
